@@ -300,6 +300,8 @@ func sctxs() []sctx {
 	}
 }
 
+const nSingleFillers = 21 // exprs() lists the single hole fillers first
+
 const nCoreSctx = 13 // the first nCoreSctx statement contexts compose at depth >= 2 in the quick tier
 
 type tail struct {
@@ -418,7 +420,13 @@ func Enumerate(b Bounds) []Case {
 			}
 			if d <= 1 {
 				for _, fm := range forms[1:] {
-					for _, x := range xs[:8] {
+					// the other statement forms hold the single hole fillers: the statement form `X;`
+					// (value discarded) all of them, the others the first eight
+					n := 8
+					if fm.name == "expr" {
+						n = nSingleFillers
+					}
+					for _, x := range xs[:n] {
 						add("expr: "+pathName(p)+fm.name+" "+x.name, wrap(p, fm.mk(x.mk())))
 					}
 				}
